@@ -40,9 +40,17 @@ def run_steps(ctx: Ctx):
     lines, meta = [], []
     for n in range(ctx.pick(10, 120)):
         costs = {f'c{k}': rng.choice([0.25, 1.0, 2.0, 5.0]) for k in range(5)} if rng.random() < 0.7 else None
-        system, spec = systems.random_chain_system(rng, ncomp=rng.randint(1, 3), with_alpha=rng.random() < 0.5, name=f'r{n}', costs=costs)
+        by_alpha = costs is not None and rng.random() < 0.5
+        if by_alpha:           # the reported cost depends on the model fidelity; the harness keeps its own ledger of the calls
+            costs = {k: ('by_alpha', v) for k, v in costs.items()}
+        logs = {}
+        focus_last = n % 3 == 0      # stratified: a third of the systems are chains trained for the outputs of their LAST component only
+        system, spec = systems.random_chain_system(rng, ncomp=(rng.randint(2, 3) if focus_last else rng.randint(1, 3)),
+                                                   with_alpha=(True if by_alpha else rng.random() < 0.5), name=f'r{n}', costs=costs, logs=logs)
         outs_all = [o for s in spec for o in s['outputs']]
         targets = None if rng.random() < 0.5 else rng.sample(outs_all, rng.randint(1, len(outs_all)))
+        if focus_last:
+            targets = list(spec[-1]['outputs'])
         tlist = targets or outs_all
         nr = rng.choice([5, 20, 50]); ub = rng.random() < 0.5
         case0 = {'system': n, 'components': [(s['name'], s['levels'], s['na']) for s in spec], 'costs': costs, 'targets': targets,
@@ -95,6 +103,27 @@ def run_steps(ctx: Ctx):
             if abs(res['added_cost'] - max(1.0, chosen[0]['cost'])) > 1e-9 or not (abs(res['added_error'] - chosen[0]['err']) <= 1e-9 * (1 + abs(chosen[0]['err']))):
                 ctx.violate('C08:history-entry-wrong', f'history entry reports error {res["added_error"]} / cost {res["added_cost"]}, candidate had '
                             f'{chosen[0]["err"]} / {max(1.0, chosen[0]["cost"])}', case)
+            # --- the costs the indicators divide by, against the harness' own ledger of model calls: per component and model fidelity the
+            # costs charged to the indices of that fidelity add up to what the model reported for its evaluations at that fidelity
+            if by_alpha:
+                for k, c in enumerate(system.components):
+                    if not c.has_surrogate:
+                        continue
+                    ledger = {}
+                    for mf, xin in logs.get(c.name, []):
+                        if mf is None:
+                            continue
+                        npts = len(next(iter(xin.values())))
+                        rows = mf if len(mf) == npts else [mf[0]] * npts
+                        for r in rows:
+                            a_ = tuple(int(v) for v in r)
+                            ledger[a_] = ledger.get(a_, 0.0) + costs[c.name][1] * (1 + 7 * sum(a_))
+                    charged = {}
+                    for a, b in c.active_set.union(c.candidate_set):
+                        charged[tuple(a)] = charged.get(tuple(a), 0.0) + float(c.get_cost(a, b))
+                    if any(abs(charged.get(a_, 0.0) - v) > 1e-9 * (1 + v) for a_, v in ledger.items()):
+                        ctx.violate('C08:cost-account-differs-from-calls', f'component {c.name}: costs charged per fidelity {charged}, the model reported '
+                                    f'{ledger} for its evaluations', case); break
             # --- correspondence with the extracted scan (skip when the two largest indicators are within rounding)
             top = sorted((s['indicator'] for s in nums), reverse=True)
             if len(top) < 2 or top[0] - top[1] > 1e-9 * (1 + abs(top[0])):
